@@ -36,7 +36,7 @@ func (p LLC) Type() string {
 }
 
 func (p LLC) Payload() []byte {
-	if p.Type() == "u" {
+	if p.Type() == "u" || len(p) < 4 { // a valid LLC header can be 3 bytes long
 		return p[3:]
 	}
 	return p[4:]
